@@ -31,7 +31,7 @@ theorem X_to_linear_tie (e e1 : Ext) (es : List Ext) (i : Int) (rest : List Int)
 theorem X_next_canonical_tie (e e1 : Ext) (es : List Ext) (i : Int) (rest : List Int) :
     X_next_canonical (e :: e1 :: es) i rest = Exts.nextCanonical (e :: e1 :: es) (i :: rest) := by
   simp only [X_next_canonical, List.tail_cons, hdE_cons, Exts.nextCanonical]
-  by_cases h : (Exts.nextCanonical (e1 :: es) rest).2 = true <;> simp [h]
+  by_cases h : (Exts.nextCanonical (e1 :: es) rest).2 = true <;> simp [h] <;> grind
 
 theorem X_prev_canonical_tie (e e1 : Ext) (es : List Ext) (i : Int) (rest : List Int) :
     X_prev_canonical (e :: e1 :: es) i rest = Exts.prevCanonical (e :: e1 :: es) (i :: rest) := by
@@ -136,7 +136,10 @@ theorem E_sub_tie (it : ElemIt) (k : Int) : E_sub it k = it.sub' k := by
 theorem E_diff_tie (it o : ElemIt) : E_diff it o = it.diff o := rfl
 theorem E_lt_tie (it o : ElemIt) : E_lt it o = it.lt o := rfl
 theorem E_eq_tie (it o : ElemIt) : E_eq it o = it.eq o := rfl
-theorem E_deref_tie (it : ElemIt) : E_deref it = it.current ∧ E_current it = it.current := ⟨rfl, rfl⟩
+theorem E_deref_tie (it : ElemIt) : E_deref it = it.current ∧ E_current it = it.current := by
+  constructor
+  · tie_simp [E_deref, ElemIt.current]
+  · tie_simp [E_current, ElemIt.current]
 theorem E_at_tie (it : ElemIt) (k : Int) : E_at it k = it.at' k := by
   simp only [E_at, ElemIt.at']
   cases ElemRange.fromLinearG it.xs (Exts.toLinear it.xs it.ns + k) <;> simp
@@ -165,8 +168,8 @@ theorem cursor_is_the_code (b : Int) (s0 : Int) (ss : List Int) (n : Int) (v : V
     CU_index ⟨b, s0 :: ss⟩ n = Cursor.index ⟨b, s0 :: ss⟩ n ∧ V_home_aux v = v.home := by
   refine ⟨?_, rfl⟩
   cases ss with
-  | nil => simp [CU_index, Cursor.index]
-  | cons s1 ss => simp [CU_index, Cursor.index]; omega
+  | nil => simp [CU_index, Cursor.index] <;> grind
+  | cons s1 ss => simp [CU_index, Cursor.index] <;> grind
 
 /-- the model's closed form of cursor indexing (`View.cursorAddr`, used by `C01.paths_agree`) is what repeated
     `cursor_t::operator[]` from `home()` computes -/
